@@ -330,6 +330,16 @@ def build_model(prop):
             return exe
         rc, out = sh(["coqc", "-Q", COQ, "Muduo", "-o", "./%s_Extract.vo" % prop, ev], cwd=d, timeout=900)
         if rc != 0:
+            # a file the extraction requires may not be compiled yet (fresh tree, not in the closure of the
+            # property's theorems): build exactly those under the shared Coq lock and try once more
+            req = re.findall(r"From\s+Muduo\s+Require\s+(?:Import\s+|Export\s+)?([\w\s]+?)\.", strip_coq_comments(open(ev).read()))
+            tg = sorted({n + ".vo" for r in req for n in r.split() if os.path.exists(os.path.join(COQ, n + ".v"))})
+            if tg:
+                with Lock("coq"):
+                    sh([os.path.join(ROOT, "bin/mkcoqproject")])
+                    sh(["make", "-k", "-j%d" % NPROC] + tg, cwd=COQ, timeout=3000)
+                rc, out = sh(["coqc", "-Q", COQ, "Muduo", "-o", "./%s_Extract.vo" % prop, ev], cwd=d, timeout=900)
+        if rc != 0:
             raise RuntimeError("extraction failed:\n" + out)
         with open(os.path.join(d, "main.ml"), "w") as f:
             f.write("open Model\n")
@@ -648,7 +658,7 @@ def run_batch(exe, cases, timeout=1200, env=None, pre=()):
         if idx is None:
             break
         c = todo[idx]
-        crashes[c.cid] = (rc, se[-3000:], partial[1] if partial and partial[0] == c.cid else [])
+        crashes[c.cid] = (rc, (se if len(se) <= 4500 else se[:1500] + "\n[...]\n" + se[-3000:]), partial[1] if partial and partial[0] == c.cid else [])
         todo = todo[idx + 1:]
     return outs, crashes
 
